@@ -459,6 +459,9 @@ struct Driven
 	pre: Vec<u16>,
 	pre_panicked: bool,
 	nonfn: Vec<u16>,
+	/// the declarations as handed to the linter (lintser.rs) and the module's one linter
+	lint_sexp: String,
+	linter: penne::alpha::linter::Linter,
 }
 
 type Resolved = Result<Vec<resolved::Declaration>, Errors>;
@@ -530,6 +533,10 @@ fn sorted(
 			Err(_) => out.pre_panicked = true,
 		}
 		let declaration = analyzer.analyze(declaration);
+		// What `Compiler::analyze_and_resolve_sorted` hands to the linter.
+		out.lint_sexp.push(' ');
+		crate::lintser::decl(&declaration, &mut out.lint_sexp);
+		out.linter.lint(&declaration);
 		let resolved = resolver::resolve(declaration);
 		if !is_function
 		{
@@ -629,6 +636,8 @@ pub fn stream(casefile: &str)
 				pre: Vec::new(),
 				pre_panicked: false,
 				nonfn: Vec::new(),
+				lint_sexp: "(mod".to_string(),
+				linter: Default::default(),
 			};
 			let mine = match drive(declarations, filename, &mut out)
 			{
@@ -662,6 +671,67 @@ pub fn stream(casefile: &str)
 				crate::util::codes_to_string(&out.nonfn),
 				drive
 			)
+		});
+		println!("{}\t{}", id, res);
+	}
+}
+
+
+/// The `lintwalk` stream: see lintser.rs.
+pub fn lint_stream(casefile: &str)
+{
+	for (id, payload) in crate::util::read_cases(casefile)
+	{
+		let source = match String::from_utf8(payload)
+		{
+			Ok(s) => s,
+			Err(_) =>
+			{
+				println!("{}\tnot-utf8\t-\t-", id);
+				continue;
+			}
+		};
+		let res = crate::util::guarded(move || {
+			let filename = "case.pn";
+			let declarations = crate::front::parse(&source, filename);
+			let declarations = expander::expand_one(filename, declarations);
+			if let Err(errors) = resolver::check_surface_level_errors(&declarations)
+			{
+				let codes = crate::util::codes_to_string(&errors.codes());
+				return format!("err codes={}\t-\t-", codes);
+			}
+			let declarations = scoper::analyze(declarations);
+			// The real pipeline, on a copy: its lints are the reference.
+			let mut compiler = Compiler::default();
+			compiler.add_module(filename).unwrap();
+			let real = compiler.analyze_and_resolve(declarations.clone()).unwrap();
+			let real_lints = compiler.take_lints();
+			let mut out = Driven {
+				sexp: String::new(),
+				pre: Vec::new(),
+				pre_panicked: false,
+				nonfn: Vec::new(),
+				lint_sexp: "(mod".to_string(),
+				linter: Default::default(),
+			};
+			if let Err(e) = drive(declarations, filename, &mut out)
+			{
+				return format!("bail {}\t-\t-", e.replace(['\n', '\t'], " "));
+			}
+			out.lint_sexp.push(')');
+			let show = |lints: &Vec<penne::alpha::linter::Lint>| {
+				let mut s = String::new();
+				for l in lints
+				{
+					write!(s, "({} {})", l.code(), l.verif_primary_location().span.start).unwrap();
+				}
+				s
+			};
+			let mine: Vec<penne::alpha::linter::Lint> = out.linter.into();
+			let (a, b) = (show(&real_lints), show(&mine));
+			// the hand-driven replica must see what the real pipeline sees
+			let lints = if a == b { a } else { format!("DIFF real={} replica={}", a, b) };
+			format!("{}\t{}\t{}", verdict(&real), out.lint_sexp, lints)
 		});
 		println!("{}\t{}", id, res);
 	}
